@@ -173,7 +173,10 @@ def checkC11 (d : IRDoc) (impl : Json) : PropOut := Id.run do
     let unknown := fails.filter fun f => !f.startsWith "C"
     let ops := docOperations s30.doc
     let tie := ct.fails.take 4
-    return { model := n31, implView := n30, implFails := known.map (· ++ ":dialect-difference") ++ unknown.take 6,
+    -- differences the converter theorems EXCUSE (a rule list outside `Agreeable`: an unparsable value, …) are no
+    -- failures; when nothing else differs the two views count as agreeing (a document without operations has no
+    -- `default` response to differ on, so such a case has no recorded finding to ride on)
+    return { model := n31, implView := (if fails.isEmpty then n31 else n30), implFails := known.map (· ++ ":dialect-difference") ++ unknown.take 6,
              modelFails := tie, nontrivial := !ops.isEmpty,
              notes := [s!"d:diffs={ds.length}", s!"d:conv-compared={ct.compared}", s!"d:conv-agreeable={ct.agreeable}",
                        s!"d:conv-out-of-oracle={ct.skipped}", s!"d:excused-diffs={nExcused}"] }
